@@ -1036,33 +1036,75 @@ theorem noLoopNames_append (f : Nat → Bool) (n : Nat) :
     · rfl
     · exact ih _
 
-/-- what a pass / loop keeps: the names returned so far pass the no-loop walk from `since`, and everything the walk has
-accumulated is marked in the facts (`<name>_fired`) -/
-def MInv (isNL : Nat → Bool) (since : List Nat) (s : CFacts) (out : List Nat) : Prop :=
-  ∃ acc, noLoopNames isNL since out = some acc ∧ ∀ n, n ∈ acc → n ∈ s.firedFlags
+theorem noLoopNamesM_append (f : Nat → Bool) (clr : Nat → Nat → Bool) (n : Nat) :
+    ∀ (xs since : List Nat), noLoopNamesM f clr since (xs ++ [n]) =
+      (match noLoopNamesM f clr since xs with
+       | some acc => if f n && acc.contains n then none else some (setInsert n (acc.filter (fun k => !clr n k)))
+       | none => none) := by
+  intro xs
+  induction xs with
+  | nil => intro since; simp [noLoopNamesM]
+  | cons x t ih =>
+    intro since
+    simp only [List.cons_append, noLoopNamesM]
+    split
+    · rfl
+    · exact ih _
 
-theorem toNURule_act_mono (r : NRule) (s : CFacts) (n : Nat) (h : n ∈ s.firedFlags) : n ∈ ((toNURule r).act s).firedFlags := by
+/-- what a pass / loop keeps: the names returned so far pass the no-loop walk from `since`, and everything the walk has
+accumulated is marked in the facts (`<name>_fired` is read as fired) -/
+def MInv (isNL : Nat → Bool) (clr : Nat → Nat → Bool) (since : List Nat) (s : CFacts) (out : List Nat) : Prop :=
+  ∃ acc, noLoopNamesM isNL clr since out = some acc ∧ ∀ n, n ∈ acc → n ∈ s.firedFlags
+
+theorem mem_cClearFired {n k : Nat} {s : CFacts} : n ∈ (cClearFired k s).firedFlags ↔ (n ∈ s.firedFlags ∧ n ≠ k) := by
+  simp [cClearFired]
+
+theorem cMark_mono (typed : Bool) (k v n : Nat) (s : CFacts) (h : n ∈ s.firedFlags)
+    (hk : ¬ (k = n ∧ markerFired typed v = false)) : n ∈ (cMark typed k v s).firedFlags := by
+  unfold cMark
+  cases hv : markerFired typed v with
+  | true => simp only [if_true, cSetFired]; exact mem_setInsert.mpr (Or.inr h)
+  | false =>
+    simp only [Bool.false_eq_true, if_false]
+    refine mem_cClearFired.mpr ⟨h, ?_⟩
+    intro hnk
+    exact hk ⟨hnk.symm, hv⟩
+
+theorem toNURule_act_mono (typed : Bool) (r : NRule) (s : CFacts) (n : Nat) (h : n ∈ s.firedFlags)
+    (hk : ¬ (r.marks = some n ∧ markerFired typed r.mval = false)) : n ∈ ((toNURule typed r).act s).firedFlags := by
+  have hb : n ∈ (s.bump r.ak r.inc).firedFlags := by simp only [CFacts.bump]; split <;> exact h
   unfold toNURule
   cases hm : r.marks with
-  | none => simp only [CFacts.bump]; split <;> exact h
+  | none => exact hb
   | some k =>
-    simp only [cSetFired]
-    apply mem_setInsert.mpr
-    right
-    simp only [CFacts.bump]; split <;> exact h
+    simp only []
+    apply cMark_mono typed k r.mval n _ hb
+    intro ⟨hkn, hv⟩
+    exact hk ⟨by rw [hm, hkn], hv⟩
 
-theorem MInv_fire (rules : List NRule) (since : List Nat) (s : CFacts) (out : List Nat) (r : NRule) (hr : r ∈ rules)
+theorem not_clearedBy (fv : Nat → Bool) (rules : List NRule) (r : NRule) (hr : r ∈ rules) (m : Nat)
+    (h : clearedBy fv rules r.name m = false) : ¬ (r.marks = some m ∧ fv r.mval = false) := by
+  intro ⟨h1, h2⟩
+  have : clearedBy fv rules r.name m = true := by
+    unfold clearedBy
+    apply List.any_eq_true.mpr
+    exact ⟨r, hr, by simp [h1, h2]⟩
+  rw [this] at h
+  exact Bool.noConfusion h
+
+theorem MInv_fire (typed : Bool) (rules : List NRule) (since : List Nat) (s : CFacts) (out : List Nat) (r : NRule) (hr : r ∈ rules)
     (hchk : ¬ (r.noLoop = true ∧ r.name ∈ s.firedFlags))
-    (h : MInv (nameNoLoop rules) since s out) :
-    MInv (nameNoLoop rules) since (cSetFired r.name ((toNURule r).act s)) (out ++ [r.name]) := by
+    (h : MInv (nameNoLoop rules) (clearedBy (markerFired typed) rules) since s out) :
+    MInv (nameNoLoop rules) (clearedBy (markerFired typed) rules) since
+      (cSetFired r.name ((toNURule typed r).act s)) (out ++ [r.name]) := by
   obtain ⟨acc, hacc, hin⟩ := h
   have hnl : nameNoLoop rules r.name = true → r.noLoop = true := by
     intro hn
     unfold nameNoLoop at hn
     have := List.all_eq_true.mp hn r hr
     simpa using this
-  refine ⟨setInsert r.name acc, ?_, ?_⟩
-  · rw [noLoopNames_append, hacc]
+  refine ⟨setInsert r.name (acc.filter (fun k => !clearedBy (markerFired typed) rules r.name k)), ?_, ?_⟩
+  · rw [noLoopNamesM_append, hacc]
     simp only
     split
     · rename_i hc
@@ -1074,10 +1116,13 @@ theorem MInv_fire (rules : List NRule) (since : List Nat) (s : CFacts) (out : Li
     apply mem_setInsert.mpr
     rcases mem_setInsert.mp hn with h1 | h1
     · left; exact h1
-    · right; exact toNURule_act_mono r s n (hin n h1)
+    · right
+      have h2 := List.mem_filter.mp h1
+      have h3 : clearedBy (markerFired typed) rules r.name n = false := by simpa using h2.2
+      exact toNURule_act_mono typed r s n (hin n h2.1) (not_clearedBy _ rules r hr n h3)
 
-theorem map_toNURule_get (rules : List NRule) (i : Nat) (ur : URule CFacts) (h : (rules.map toNURule)[i]? = some ur) :
-    ∃ r, r ∈ rules ∧ ur = toNURule r := by
+theorem map_toNURule_get (typed : Bool) (rules : List NRule) (i : Nat) (ur : URule CFacts) (h : (rules.map (toNURule typed))[i]? = some ur) :
+    ∃ r, r ∈ rules ∧ ur = toNURule typed r := by
   rw [List.getElem?_map] at h
   cases hr : rules[i]? with
   | none => rw [hr] at h; simp at h
@@ -1086,8 +1131,8 @@ theorem map_toNURule_get (rules : List NRule) (i : Nat) (ur : URule CFacts) (h :
     simp only [Option.map_some, Option.some.injEq] at h
     exact ⟨r, List.mem_of_getElem? hr, h.symm⟩
 
-theorem chk_of_not (r : NRule) (flags : List Nat) (s : CFacts)
-    (hc : ¬ ((toNURule r).noLoop && (flags.contains (toNURule r).name || cIsFired (toNURule r).name s)) = true) :
+theorem chk_of_not (typed : Bool) (r : NRule) (flags : List Nat) (s : CFacts)
+    (hc : ¬ ((toNURule typed r).noLoop && (flags.contains (toNURule typed r).name || cIsFired (toNURule typed r).name s)) = true) :
     ¬ (r.noLoop = true ∧ r.name ∈ s.firedFlags) := by
   intro ⟨h1, h2⟩
   apply hc
@@ -1095,10 +1140,10 @@ theorem chk_of_not (r : NRule) (flags : List Nat) (s : CFacts)
 
 theorem typedPass_inv (rules : List NRule) (since : List Nat) :
     ∀ (ag : List (Nat × Int)) (s : CFacts) (flags out : List Nat) (ch : Bool),
-      MInv (nameNoLoop rules) since s out →
-      MInv (nameNoLoop rules) since
-        (typedFirePass (rules.map toNURule) cSetFired cIsFired ag s flags out ch).1
-        (typedFirePass (rules.map toNURule) cSetFired cIsFired ag s flags out ch).2.2.1 := by
+      MInv (nameNoLoop rules) (clearedBy (markerFired true) rules) since s out →
+      MInv (nameNoLoop rules) (clearedBy (markerFired true) rules) since
+        (typedFirePass (rules.map (toNURule true)) cSetFired cIsFired ag s flags out ch).1
+        (typedFirePass (rules.map (toNURule true)) cSetFired cIsFired ag s flags out ch).2.2.1 := by
   intro ag
   induction ag with
   | nil => intro s flags out ch h; simpa [typedFirePass] using h
@@ -1106,23 +1151,23 @@ theorem typedPass_inv (rules : List NRule) (since : List Nat) :
     intro s flags out ch h
     obtain ⟨i, p⟩ := x
     simp only [typedFirePass]
-    cases hi : (rules.map toNURule)[i]? with
+    cases hi : (rules.map (toNURule true))[i]? with
     | none => exact ih s flags out ch h
     | some ur =>
-      obtain ⟨r, hr, rfl⟩ := map_toNURule_get rules i ur hi
+      obtain ⟨r, hr, rfl⟩ := map_toNURule_get true rules i ur hi
       simp only []
       split
       · exact ih s flags out ch h
       · rename_i hc
         apply ih
-        exact MInv_fire rules since s out r hr (chk_of_not r flags s hc) h
+        exact MInv_fire true rules since s out r hr (chk_of_not true r flags s hc) h
 
 theorem ulPass_inv (rules : List NRule) (since : List Nat) :
     ∀ (ag : List (Nat × Int)) (s : CFacts) (flags out : List Nat),
-      MInv (nameNoLoop rules) since s out →
-      MInv (nameNoLoop rules) since
-        (ulFirePass (rules.map toNURule) cSetFired cIsFired ag s flags out).1
-        (ulFirePass (rules.map toNURule) cSetFired cIsFired ag s flags out).2.2 := by
+      MInv (nameNoLoop rules) (clearedBy (markerFired false) rules) since s out →
+      MInv (nameNoLoop rules) (clearedBy (markerFired false) rules) since
+        (ulFirePass (rules.map (toNURule false)) cSetFired cIsFired ag s flags out).1
+        (ulFirePass (rules.map (toNURule false)) cSetFired cIsFired ag s flags out).2.2 := by
   intro ag
   induction ag with
   | nil => intro s flags out h; simpa [ulFirePass] using h
@@ -1130,23 +1175,23 @@ theorem ulPass_inv (rules : List NRule) (since : List Nat) :
     intro s flags out h
     obtain ⟨i, p⟩ := x
     simp only [ulFirePass]
-    cases hi : (rules.map toNURule)[i]? with
+    cases hi : (rules.map (toNURule false))[i]? with
     | none => exact ih s flags out h
     | some ur =>
-      obtain ⟨r, hr, rfl⟩ := map_toNURule_get rules i ur hi
+      obtain ⟨r, hr, rfl⟩ := map_toNURule_get false rules i ur hi
       simp only []
       split
       · exact ih s flags out h
       · rename_i hc
         apply ih
-        exact MInv_fire rules since s out r hr (chk_of_not r flags s hc) h
+        exact MInv_fire false rules since s out r hr (chk_of_not false r flags s hc) h
 
 theorem typedLoop_inv (rules : List NRule) (since : List Nat) :
     ∀ (fuel : Nat) (s : CFacts) (flags out : List Nat),
-      MInv (nameNoLoop rules) since s out →
-      MInv (nameNoLoop rules) since
-        (typedLoop (rules.map toNURule) cSetFired cIsFired fuel s flags out).1
-        (typedLoop (rules.map toNURule) cSetFired cIsFired fuel s flags out).2 := by
+      MInv (nameNoLoop rules) (clearedBy (markerFired true) rules) since s out →
+      MInv (nameNoLoop rules) (clearedBy (markerFired true) rules) since
+        (typedLoop (rules.map (toNURule true)) cSetFired cIsFired fuel s flags out).1
+        (typedLoop (rules.map (toNURule true)) cSetFired cIsFired fuel s flags out).2 := by
   intro fuel
   induction fuel with
   | zero => intro s flags out h; simpa [typedLoop] using h
@@ -1159,10 +1204,10 @@ theorem typedLoop_inv (rules : List NRule) (since : List Nat) :
 
 theorem ulLoop_inv (rules : List NRule) (since : List Nat) :
     ∀ (fuel : Nat) (s : CFacts) (flags out : List Nat),
-      MInv (nameNoLoop rules) since s out →
-      MInv (nameNoLoop rules) since
-        (ulLoop (rules.map toNURule) cSetFired cIsFired fuel s flags out).1
-        (ulLoop (rules.map toNURule) cSetFired cIsFired fuel s flags out).2 := by
+      MInv (nameNoLoop rules) (clearedBy (markerFired false) rules) since s out →
+      MInv (nameNoLoop rules) (clearedBy (markerFired false) rules) since
+        (ulLoop (rules.map (toNURule false)) cSetFired cIsFired fuel s flags out).1
+        (ulLoop (rules.map (toNURule false)) cSetFired cIsFired fuel s flags out).2 := by
   intro fuel
   induction fuel with
   | zero => intro s flags out h; simpa [ulLoop] using h
@@ -1177,7 +1222,8 @@ theorem ulLoop_inv (rules : List NRule) (since : List Nat) :
 
 theorem mhistOk_trace (typed : Bool) (rules : List NRule) :
     ∀ (ops : List MOp) (s : CFacts) (since : List Nat), (∀ n, n ∈ since → n ∈ s.firedFlags) →
-      mhistOk (nameNoLoop rules) ((if typed then typedBound else ulBound) * rules.length) since ops (mtrace typed rules s ops) = true := by
+      mhistOk (nameNoLoop rules) (clearedBy (markerFired typed) rules) (markerFired typed)
+        ((if typed then typedBound else ulBound) * rules.length) since ops (mtrace typed rules s ops) = true := by
   intro ops
   induction ops with
   | nil => intro s since _; simp [mtrace, mhistOk]
@@ -1185,17 +1231,18 @@ theorem mhistOk_trace (typed : Bool) (rules : List NRule) :
     intro s since hs
     cases op with
     | fire =>
-      have h0 : MInv (nameNoLoop rules) since s [] := ⟨since, by simp [noLoopNames], hs⟩
       cases typed with
       | true =>
+        have h0 : MInv (nameNoLoop rules) (clearedBy (markerFired true) rules) since s [] := ⟨since, by simp [noLoopNamesM], hs⟩
         obtain ⟨acc, hacc, hin⟩ := typedLoop_inv rules since typedBound s [] [] h0
-        have hl := typedLoop_length (rules.map toNURule) cSetFired cIsFired typedBound s [] []
+        have hl := typedLoop_length (rules.map (toNURule true)) cSetFired cIsFired typedBound s [] []
         simp only [List.length_map, List.length_nil, Nat.zero_add] at hl
         simp only [mtrace, mstep, mhistOk, if_true, hacc, Bool.and_eq_true, decide_eq_true_eq]
         exact ⟨hl, ih _ acc hin⟩
       | false =>
+        have h0 : MInv (nameNoLoop rules) (clearedBy (markerFired false) rules) since s [] := ⟨since, by simp [noLoopNamesM], hs⟩
         obtain ⟨acc, hacc, hin⟩ := ulLoop_inv rules since ulBound s [] [] h0
-        have hl := ulLoop_length (rules.map toNURule) cSetFired cIsFired ulBound s [] []
+        have hl := ulLoop_length (rules.map (toNURule false)) cSetFired cIsFired ulBound s [] []
         simp only [List.length_map, List.length_nil, Nat.zero_add] at hl
         simp only [mtrace, mstep, mhistOk, Bool.false_eq_true, if_false, hacc, Bool.and_eq_true, decide_eq_true_eq]
         exact ⟨hl, ih _ acc hin⟩
@@ -1205,9 +1252,21 @@ theorem mhistOk_trace (typed : Bool) (rules : List NRule) :
     | set a b =>
       simp only [mtrace, mstep, mhistOk]
       exact ih _ since hs
-    | marker k =>
+    | marker k v =>
       simp only [mtrace, mstep, mhistOk]
-      exact ih _ since (by intro n hn; simp only [cSetFired]; exact mem_setInsert.mpr (Or.inr (hs n hn)))
+      apply ih
+      intro n hn
+      unfold cMark
+      cases hv : markerFired typed v with
+      | true =>
+        rw [hv] at hn
+        simp only [if_true] at hn ⊢
+        simp only [cSetFired]; exact mem_setInsert.mpr (Or.inr (hs n hn))
+      | false =>
+        rw [hv] at hn
+        simp only [Bool.false_eq_true, if_false] at hn ⊢
+        have h2 := List.mem_filter.mp hn
+        exact mem_cClearFired.mpr ⟨hs n h2.1, by simpa using h2.2⟩
 
 
 end C07
